@@ -402,10 +402,10 @@ def history_parts(pid: str, tier: str):
             parts.append(Part("histories-len3", P(run_c11, HCfg(N=3, length=3, flavours="s")), dict(b, length=3), 3600, 9, ["w_reuse", "w_deepcopy"], HIST_FUNCS))
             parts.append(Part("histories-len4-N2", P(run_c11, HCfg(N=2, length=4, flavours="s", deepcopy=False)), dict(b, N=2, length=4, operations="as above without deepcopy"), 3600, 9, ["w_reuse"], HIST_FUNCS))
     elif pid == "C15":
-        b = {"programs": 3, "operations": "call (default omitted / supplied), failing call, executor create (whole / target), run, failing run, compose + call of the composed DAG, config_from_dict",
+        b = {"programs": 3, "operations": "call (default omitted / supplied), failing call, executor create (whole / target), run, failing run, compose + call of the composed DAG, config_from_dict, setup() / setup(target_nodes=[]) / setup(target_nodes=[n]) on a DAG without setup nodes, an executor whose cache file cannot be written (fault at the cache write)",
              "final operation": "a call with fresh symbolic arguments"}
-        parts.append(Part("histories-len3", P(run_c15, HCfg(length=3, flavours="s")), dict(b, length="3+1"), 900, 8, ["w_final_call", "w_failed_call", "w_refused_rerun", "w_rerun_after_failure|w_refused_after_failure", "w_compose", "w_config"], HIST_FUNCS))
-        parts.append(Part("histories-len3-async", P(run_c15, HCfg(length=3, flavours="a")), dict(b, length="3+1", flavour="async"), 900, 8, ["w_final_call", "w_rerun_after_failure|w_refused_after_failure"], HIST_FUNCS))
+        parts.append(Part("histories-len3", P(run_c15, HCfg(length=3, flavours="s")), dict(b, length="3+1"), 900, 8, ["w_final_call", "w_failed_call", "w_refused_rerun", "w_rerun_after_failure|w_refused_after_failure", "w_compose", "w_config", "w_setup_op", "w_cache_write_failed"], HIST_FUNCS))
+        parts.append(Part("histories-len3-async", P(run_c15, HCfg(length=3, flavours="a", ops="noargsetup")), dict(b, length="3+1", flavour="async", operations_left_out="setup(target_nodes=[]) and setup(target_nodes=[n])"), 900, 8, ["w_final_call", "w_rerun_after_failure|w_refused_after_failure"], HIST_FUNCS))
         from harness.history import run_c18
 
         parts.append(Part("cache-executors-N2", P(run_c18, HCfg(N=2, length=3, flavours="s")), {"N": 2, "what": "an executor started from a cache refuses a second run; a restart from another instance's cache does not change what later calls of this instance see"}, 900, 8, ["w_deps_of_restart", "w_foreign_cache"], HIST_FUNCS))
